@@ -96,6 +96,12 @@ def mk_initial():
     xd = rng.normal(size=(12, 2, 2)) + 1j * rng.normal(size=(12, 2, 2))
     out.append(("dualpol c128 dask-wrapped", factory.make("DualPolarizationSignal", da.from_array(xd, chunks=(12, 1, 2)),
                                                           rate_name="1MHz", start_name="iso", fc=400 * u.MHz, pol_type="circular"), [xd]))
+    # flagged data: a masked array whose hidden values are not zero (neither the values nor the mask may change)
+    md = rng.normal(size=(12, 2)) + 1j * rng.normal(size=(12, 2))
+    mm = np.zeros((12, 2), bool)
+    mm[2, 0] = mm[5, 1] = mm[11, 0] = True
+    ma = np.ma.MaskedArray(md, mask=mm)
+    out.append(("baseband c128 masked array", factory.make("BasebandSignal", ma, rate_name="1MHz", start_name="iso", fc=400 * u.MHz), [md, mm]))
     s1 = rng.normal(size=12)
     out.append(("signal f64 1-D", factory.make("Signal", s1, rate_name="3kHz", start_name="none"), [s1]))
     return out
